@@ -4,8 +4,10 @@ package engine
 
 import (
 	"fmt"
+	"hash/fnv"
 	"os"
 	"path/filepath"
+	"runtime"
 	"runtime/debug"
 	"sync/atomic"
 
@@ -21,6 +23,17 @@ type Config struct {
 	Rel      string   `json:"rel"`
 	OutMode  uint32   `json:"out_mode,omitempty"`
 	Populate []string `json:"populate,omitempty"` // outdir ops: names (relative to out/) pre-created with old content
+	// MapSalt selects the order in which Go maps are seeded and walked during the run (the runtime's
+	// randomness is owned by the simulator, see overlay/zz_verif_runtime.go.txt): the same value gives
+	// the same walk order of pdfcpu's object table and dictionaries, another value another order.
+	MapSalt uint64 `json:"map_salt,omitempty"`
+}
+
+// MapSeed is the value the runtime's random sequence is restarted from for this configuration.
+func (c Config) MapSeed() uint64 {
+	h := fnv.New64a()
+	h.Write([]byte(c.Op + "/" + c.Rel))
+	return h.Sum64() ^ c.MapSalt ^ (uint64(c.OutMode) << 40)
 }
 
 func (c Config) String() string {
@@ -177,6 +190,7 @@ func Run(cfg Config, opt Options) (*Result, error) {
 		oldwd, _ = os.Getwd()
 		os.Chdir(env.Chdir)
 	}
+	runtime.VerifSetMapRand(cfg.MapSeed())
 	simfs.Activate(sim)
 	func() {
 		defer func() {
